@@ -25,6 +25,8 @@ pub fn run_a_star(
     weight_factor: Option<Cost>,
     si: &SearchInstance,
 ) -> Result<SearchResult, SearchError> {
+    // a source vertex that is not in the graph is an error, with or without a target
+    si.directed_graph.get_vertex(&source)?;
     if target.map_or(false, |t| t == source) {
         return Ok(SearchResult::default());
     }
